@@ -132,6 +132,15 @@ func c18Ops(r *RNG, st *struct {
 
 func c18(c *Ctx) {
 	defer globalAPI(c)
+	defer func() {
+		// compile-time faults in files of several functions (Model/PassFramework.v)
+		ps := cfgCorpus()
+		r := NewRNG(c.Seed + 1819)
+		for k := 0; k < 60; k++ {
+			ps = append(ps, genBPProg(r))
+		}
+		multiFunctionFiles(c.Out, ps, "builder", 40)
+	}()
 	o := c.Out
 	rng := NewRNG(c.Seed + 1800)
 	n := 600
